@@ -48,7 +48,7 @@ def p2_structs(reduced=False):
     mid = p.add_type(layout("MidUDT", 0x305, 0xB005, [("count", "SINT", 0), ("one", inner, 0), ("many", inner, 2), ("pad", padded, 0)]))
     outer = p.add_type(layout("OuterUDT", 0x306, 0xB006, [("id", "DINT", 0), ("mid", mid, 0), ("bools", bools, 0), ("text", T["STRING"], 0), ("mids", mid, 2), ("tail", "SINT", 0)]))
     # a structure with double-underscore / unnamed hidden members and a DWORD member
-    hid = TypeDef("HiddenUDT", 0x307, 0xB007, 16, [Member("__hid", "DINT", 0, hidden=True), Member("vis", "DINT", 4), Member("", "INT", 8, hidden=True), Member("dw", "DWORD", 12)])
+    hid = TypeDef("HiddenUDT", 0x307, 0xB007, 16, [Member("__hid", "DINT", 0, hidden=True), Member("vis", "DINT", 4), Member("", "INT", 8, hidden=True), Member("dw", "DWORD", 12, 1)])
     p.add_type(hid)
     # predefined-range template whose name is its first member, with a hidden CTL member (TIMER-like)
     timer = TypeDef("TIMER", 0xF83, 0x0F83, 12, [Member("CTL", "DINT", 0), Member("PRE", "DINT", 4), Member("ACC", "DINT", 8),
